@@ -10,6 +10,7 @@ import (
 	"reflect"
 	"sort"
 	"sync"
+	"time"
 )
 
 // Point is one dynamic map iteration with at least two keys.
@@ -22,11 +23,13 @@ type Point struct {
 func (p Point) ID() string { return fmt.Sprintf("%s#%d", p.Site, p.Occ) }
 
 type session struct {
-	occ    map[string]int
-	points []Point
-	devID  string // point to deviate at ("" = none)
-	perm   int    // index into Alternatives(n)
-	hit    bool
+	clock   time.Duration
+	pending []func()
+	occ     map[string]int
+	points  []Point
+	devID   string // point to deviate at ("" = none)
+	perm    int    // index into Alternatives(n)
+	hit     bool
 }
 
 var (
@@ -174,4 +177,73 @@ func sortKey(v reflect.Value) string {
 		return "p" + fmt.Sprintf("%+v", v.Elem().Interface())
 	}
 	return "x" + fmt.Sprintf("%+v", v.Interface())
+}
+
+// SetClock shifts the wall clock seen by the rewritten code for the current session.
+func SetClock(d time.Duration) {
+	mu.Lock()
+	if cur != nil {
+		cur.clock = d
+	}
+	mu.Unlock()
+}
+
+// Now replaces time.Now() in the rewritten code.
+func Now() time.Time {
+	mu.Lock()
+	s := cur
+	var d time.Duration
+	if s != nil {
+		d = s.clock
+	}
+	mu.Unlock()
+	return time.Now().Add(d)
+}
+
+// Go replaces `go f()` of fork-join sections. Without a session it starts the
+// goroutine; under a session the body is queued and run by the next Join, on the
+// joining goroutine, in an explorer-chosen order (every serial order of the forked
+// bodies is a legal schedule of a fork-join section).
+func Go(site string, fn func()) {
+	mu.Lock()
+	s := cur
+	if s == nil {
+		mu.Unlock()
+		go fn()
+		return
+	}
+	s.pending = append(s.pending, fn)
+	mu.Unlock()
+}
+
+// Join runs the queued bodies (see Go) before the caller's WaitGroup.Wait().
+func Join(site string) {
+	mu.Lock()
+	s := cur
+	if s == nil || len(s.pending) == 0 {
+		mu.Unlock()
+		return
+	}
+	fns := s.pending
+	s.pending = nil
+	order := make([]int, len(fns))
+	for i := range order {
+		order[i] = i
+	}
+	if len(fns) >= 2 {
+		p := Point{Site: "join@" + site, Occ: s.occ["join@"+site], N: len(fns)}
+		s.occ["join@"+site]++
+		s.points = append(s.points, p)
+		if s.devID != "" && p.ID() == s.devID {
+			alts := Alternatives(p.N)
+			if s.perm < len(alts) {
+				s.hit = true
+				order = alts[s.perm]
+			}
+		}
+	}
+	mu.Unlock()
+	for _, i := range order {
+		fns[i]()
+	}
 }
